@@ -54,13 +54,15 @@ def reg_pass(seed, count, label, lines_fn=None):
             try:
                 sx = vcheck.sx_parse(l)
                 files = sx[2][1:]
-                names, specs = [], []
+                names, specs, has_broken = [], [], []
                 for f in files:
                     name = f[1][1]
                     vs = [v for v in f[2:] if v[1][1] != "@@ABSENT@@"]
                     if not vs: continue
                     names.append(name)
-                    specs.append(["file", f[1], ["var", ("s", "@@ABSENT@@"), ["src"]], vs[0]])
+                    broken = [v for v in vs if v[2] == "broken"]
+                    specs.append(["file", f[1], ["var", ("s", "@@ABSENT@@"), ["src"]], vs[0]] + broken[:1])
+                    if broken: has_broken.append(name)
                 order = names[:]; rnd.shuffle(order)
                 ops = []
                 seen_entry = False
@@ -74,6 +76,10 @@ def reg_pass(seed, count, label, lines_fn=None):
                     for n in rnd.sample(order, max(1, len(order) // 2)):
                         ops.append(["u", ("s", n), "1"])
                 ops.append(["r"])
+                # a registered file is saved with content that does not parse, the project is rebuilt, the file is repaired
+                if has_broken and rnd.random() < 0.5:
+                    n = rnd.choice(has_broken)
+                    ops += [["u", ("s", n), "2"], ["r"], ["u", ("s", n), "1"], ["r"]]
                 out.append(vcheck.sx_show(["watch", sx[1], ["files"] + specs, ["ops"] + ops]))
             except Exception:
                 continue
